@@ -8,7 +8,7 @@ CONSTANTS
   FIX_RMALL = TRUE
   FIX_PATHKEY = TRUE
   FIX_ONLYDIR = TRUE
-  REUSE_EARLY = FALSE
+  REUSE_EARLY = TRUE
   FIX_ENOENT = TRUE
 INVARIANTS TrueNames NoSpuriousError RemoveWorks Covered OwnTreeOnly
 CHECK_DEADLOCK FALSE
